@@ -58,6 +58,16 @@ ASSUME Run(B4, E(I(1), I(2)), FT).v = I(6) /\ Run(<<Ret(Fn("exp", <<a>>))>>, E(I
 ASSUME Assigned(B4) = {"y", "z"} /\ StmtCount(B4) = 5 /\ HasReturn(B4) /\ ~HasReturn(<<Assign("y", a)>>)
 ASSUME WellFormed(<<"a", "b">>, B5, FT) /\ ~WellFormed(<<"a", "K">>, <<Ret(Const("K"))>>, FT)
 
+\* just outside the translator's subset: augmented assignment, while, for
+B6 == <<Assign("y", Num(0)), While(Cmp2("lt", y, a), <<Aug("add", "y", Num(1))>>), Ret(Bin("add", y, b))>>
+B7 == <<Assign("y", b), For("i", 2, <<Aug("mul", "y", Bin("add", a, Var("i")))>>), Ret(y)>>
+B8 == <<Aug("add", "y", Num(1)), Ret(y)>>
+B9 == <<Assign("y", Num(0)), While(Cmp2("lt", y, Num(1)), <<Assign("y", Bin("sub", y, Num(1)))>>), Ret(y)>>
+ASSUME Run(B6, E(I(2), I(5)), FT).v = I(7) /\ Run(B6, E(I(0 - 1), I(5)), FT).v = I(5)
+ASSUME Run(B7, E(I(2), I(5)), FT).v = I(30) /\ Run(B8, E(I(2), I(5)), FT).st = "err" /\ Run(B9, E(I(2), I(5)), FT).st = "skip"
+ASSUME HasLoop(B6) /\ ~HasLoop(B7) /\ Assigned(B7) = {"y", "i"} /\ StmtCount(B6) = 4
+ASSUME \A pt \in {E(I(i), I(j)) : i, j \in {0 - 1, 0, 1, 2}} : PWAgrees(<<"a", "b">>, B7, FT, pt, RefMode)
+
 \* reference translation, and the two wrong instances
 Pts == {E(I(i), I(j)) : i, j \in {0 - 1, 0, 1, 2}}
 Bs == {B1, B2, B3, B4, B5}
